@@ -94,6 +94,11 @@ def run(ctx):
     r153(ctx)
     r1510_odd_erf_inv(ctx)
     r1511_composed_samplers(ctx)
+    # the discrete uniform sampler IS the stream's next_int: declared probabilities match the draws only if next_int is exact for every
+    # range (shared rules with C12)
+    from . import c12
+    for sc_ in prog.subclasses('StreamInterface'):
+        c12.check_stream(ctx, sc_)
     r154_inverse_pairs(ctx, dists)
     r155_density_is_derivative(ctx, dists)
     r156_erf_inv_centres(ctx)
